@@ -4,6 +4,7 @@ import (
 	"fmt"
 	"go/token"
 	"go/types"
+	"os"
 
 	"golang.org/x/tools/go/ssa"
 )
@@ -109,21 +110,60 @@ func propC06(c *Ctx) {
 		n, ok := constInt(b.Y)
 		return b.Op == token.GTR && isStopLoad(b.X, fStop) && ok && n == 0
 	})
-	done, notDone := m.cmpEdges(func(b *ssa.BinOp) bool {
-		return b.Op == token.GEQ && b.X == localNum && isStopLoad(b.Y, fStop)
-	})
-	errDone := w.Global("shovel", "ErrDone")
-	doneRet := false
-	for _, e := range done {
-		if ret, ok := terminator(e.To).(*ssa.Return); ok {
-			vals := returnValues(ret)
-			if u, ok := vals[0].(*ssa.UnOp); ok && u.X == errDone {
-				doneRet = true
+	isPos := func(v ssa.Value) bool { return stripNum(m.reg.Resolve(stripNum(v))) == localNum }
+	assumed := map[ssa.Value]bool{} // the scenario "stop > 0 and position >= stop", for conditions used as values
+	for _, f := range m.reg.Funcs() {
+		allInstrs(f, func(in ssa.Instruction) {
+			b, ok := in.(*ssa.BinOp)
+			if !ok {
+				return
 			}
-		}
+			if n, okc := constInt(b.Y); okc && n == 0 && b.Op == token.GTR && isStopLoad(b.X, fStop) {
+				assumed[b] = true
+			}
+			if b.Op == token.GEQ && isPos(b.X) && isStopLoad(b.Y, fStop) {
+				assumed[b] = true
+			}
+			if b.Op == token.LSS && isPos(b.X) && isStopLoad(b.Y, fStop) {
+				assumed[b] = false
+			}
+		})
 	}
-	c.Check("R6.2", "Converge/position>=stop-returns-ErrDone", lat.Pos(), doneRet && len(done) > 0, "the completion test exists and its taken edge returns ErrDone")
+	_, notDone := m.cmpEdges(func(b *ssa.BinOp) bool {
+		return b.Op == token.GEQ && isPos(b.X) && isStopLoad(b.Y, fStop)
+	})
+	lt2, _ := m.cmpEdges(func(b *ssa.BinOp) bool {
+		return b.Op == token.LSS && isPos(b.X) && isStopLoad(b.Y, fStop)
+	})
+	notDone = append(notDone, lt2...)
+	errDone := w.Global("shovel", "ErrDone")
+	// the edges that contradict the scenario; boolean helpers (task.done(n)) that can only answer one
+	// way under it contribute the other arm of their call
 	pass := append(append([]Edge{}, stopZero...), notDone...)
+	doneCuts := liftBoolHelpers(m.reg, newCuts().addEdges(pass), assumed)
+	// in the scenario Converge can only leave with ErrDone
+	nRet, badRet := 0, false
+	retCuts := &Cuts{Edges: map[Edge]bool{}, Instrs: doneCuts.Instrs}
+	for e := range doneCuts.Edges {
+		retCuts.Edges[e] = true
+	}
+	if e, has := errResult(lat); has && e != nil {
+		_, nonNil := nilTestEdges(e) // … once the position was read successfully
+		retCuts.addEdges(nonNil)
+	}
+	reach(siteOf(lat), func(in ssa.Instruction) bool {
+		ret, ok := in.(*ssa.Return)
+		if !ok || ret.Parent() != conv {
+			return false
+		}
+		nRet++
+		vals := returnValues(ret)
+		if u, ok := vals[0].(*ssa.UnOp); !ok || u.X != ssa.Value(errDone) {
+			badRet = true
+		}
+		return false
+	}, retCuts)
+	c.Check("R6.2", "Converge/position>=stop-returns-ErrDone", lat.Pos(), nRet > 0 && !badRet && len(notDone)+len(assumed) > 0, "with stop > 0 and position >= stop the step can only end in `return ErrDone`")
 	sites := sqlSites(w)
 	writers := m.writers(sites)
 	n := 0
@@ -151,7 +191,7 @@ func propC06(c *Ctx) {
 			continue
 		}
 		n++
-		r, _ := reach(siteOf(lat), isInstr(ci), newCuts().addEdges(pass))
+		r, _ := reach(siteOf(lat), isInstr(ci), doneCuts)
 		c.Check("R6.2", fmt.Sprintf("Converge/%s#%d", shortCallee(ci), callOrdinal(ci)), instrPos(ci), !r && m.dom(lat, ci), kind+" happens only after the completion test was passed with `not done`")
 	}
 
@@ -174,161 +214,7 @@ func propC06(c *Ctx) {
 
 	// ---- R6.4 ---------------------------------------------------------
 	c.Rule("R6.4", "latest() returns the scanned cursor row, or (start-1, Hash(start-1)), or (head-1, Hash(head-1)); never a constant position", 3)
-	lt := m.latest
-	// scan destinations
-	var scanCells []ssa.Value
-	for _, ci := range callsIn(lt) {
-		if ci.Common().IsInvoke() && ci.Common().Method.Name() == "Scan" {
-			if vs, ok := varargValues(ci.Common().Args[0]); ok {
-				scanCells = append(scanCells, vs...)
-			}
-		}
-	}
-	isCellLoad := func(v ssa.Value) bool {
-		u, ok := v.(*ssa.UnOp)
-		if !ok || u.Op != token.MUL {
-			return false
-		}
-		for _, sc := range scanCells {
-			if stripConv(sc) == u.X {
-				return true
-			}
-		}
-		return false
-	}
-	nret := 0
-	kinds := map[string]bool{}
-	for _, r := range returnsOf(lt) {
-		vals := returnValues(r)
-		if len(vals) != 3 || !isNilConst(vals[2]) {
-			continue
-		}
-		nret++
-		ok, detail := false, ""
-		switch {
-		case isCellLoad(vals[0]) && isCellLoad(vals[1]) && vals[0].(*ssa.UnOp).X != vals[1].(*ssa.UnOp).X:
-			ok, detail = true, "returns the scanned (num, hash)"
-			kinds["row"] = true
-		default:
-			// hash must be Source.Hash(ctx, url, N) with N the returned number
-			call, idx := resultOf(vals[1])
-			if call != nil && idx == 0 && call.Call.IsInvoke() && call.Call.Method.Name() == "Hash" && repoNamedIs(call.Call.Value.Type(), "shovel", "Source") {
-				nArg := call.Call.Args[len(call.Call.Args)-1]
-				same := nArg == vals[0]
-				if !same {
-					// two syntactically separate `n-1` computations: compare structure
-					same = sym(nArg) == sym(vals[0])
-				}
-				if !same {
-					aff := &affEnv{}
-					same = linEq(aff.Of(nArg), aff.Of(vals[0]))
-				}
-				if _, isConst := vals[0].(*ssa.Const); same && !isConst {
-					ok, detail = true, "returns (N, Source.Hash(N)) with N = "+shortSym(vals[0])
-					if b, isB := vals[0].(*ssa.BinOp); isB && b.Op == token.SUB {
-						// edges on which the configured start is known non-zero
-						startPos, _ := cmpEdges(lt, func(bb *ssa.BinOp) bool {
-							n, ok := constInt(bb.Y)
-							return (bb.Op == token.GTR || bb.Op == token.NEQ) && isStopLoad(bb.X, fStart) && ok && n == 0
-						})
-						_, ne := cmpEdges(lt, func(bb *ssa.BinOp) bool {
-							n, ok := constInt(bb.Y)
-							return bb.Op == token.EQL && isStopLoad(bb.X, fStart) && ok && n == 0
-						})
-						startPos = append(startPos, ne...)
-						// N may be chosen between the configured start and the head (a phi): every choice is judged
-						for _, lf := range phiLeaves(b.X) {
-							switch {
-							case isStopLoad(lf.Val, fStart):
-								kinds["start"] = true
-								// only when start > 0 (start-1 would wrap otherwise)
-								guarded := guardedByEdges(lt, r, startPos)
-								if lf.Phi != nil && lf.Pred != nil {
-									guarded = guarded || edgeGuarded(lt, lf.Pred, lf.Phi.Block(), startPos)
-									// `first := t.start; if first == 0 {…}`: the test is on the copy
-									if !guarded {
-										_, nz := cmpEdges(lt, func(bb *ssa.BinOp) bool {
-											n, ok := constInt(bb.Y)
-											return bb.Op == token.EQL && bb.X == lf.Val && ok && n == 0
-										})
-										nzT, _ := cmpEdges(lt, func(bb *ssa.BinOp) bool {
-											n, ok := constInt(bb.Y)
-											return (bb.Op == token.GTR || bb.Op == token.NEQ) && bb.X == lf.Val && ok && n == 0
-										})
-										guarded = edgeGuarded(lt, lf.Pred, lf.Phi.Block(), append(nz, nzT...))
-									}
-								}
-								if !guarded {
-									ok, detail = false, "start-1 is used without the start > 0 test"
-								}
-							default:
-								if cl, k := resultOf(lf.Val); cl != nil && k == 0 && cl.Call.IsInvoke() && cl.Call.Method.Name() == "Latest" {
-									kinds["head"] = true
-								} else {
-									ok, detail = false, "position is neither start-1 nor head-1"
-								}
-							}
-						}
-						if n, okc := constInt(b.Y); !okc || n != 1 {
-							ok, detail = false, "position is not N-1"
-						}
-					} else {
-						ok, detail = false, "position is not of the form N-1"
-					}
-				} else {
-					detail = "the hash is fetched for a different number than the one returned"
-				}
-			} else {
-				detail = "success return whose hash is neither scanned nor fetched for the returned number"
-			}
-		}
-		c.Check("R6.4", fmt.Sprintf("latest/return#%d", nret), instrPos(r), ok, detail)
-	}
-	for _, k := range []string{"row", "start", "head"} {
-		if !kinds[k] {
-			c.Violation("R6.4", "latest/arm-"+k, lt.Pos(), "latest() has no arm resuming from "+map[string]string{"row": "the recorded position", "start": "the configured start", "head": "the source's head"}[k])
-		}
-	}
-	// the row arm is the one taken when the query found a row: on the edge err == nil
-	// (the no-row arms must be under errors.Is(err, ErrNoRows))
-	// -> every return of kind start/head is guarded by errors.Is(err, pgx.ErrNoRows)
-	{
-		var scanErr ssa.Value
-		for _, ci := range callsIn(lt) {
-			if call, ok := ci.(*ssa.Call); ok && call.Call.IsInvoke() && call.Call.Method.Name() == "Scan" {
-				scanErr = call
-			}
-		}
-		okGuard := scanErr != nil
-		if scanErr != nil {
-			var noRows []Edge
-			for _, ref := range *scanErr.Referrers() {
-				if call, ok := ref.(*ssa.Call); ok && calleeName(call) == "errors.Is" {
-					if u, ok := call.Call.Args[1].(*ssa.UnOp); ok {
-						if g, ok := u.X.(*ssa.Global); ok && g.Name() == "ErrNoRows" {
-							t, _ := boolEdges(call)
-							noRows = append(noRows, t...)
-						}
-					}
-				}
-			}
-			isNil, _ := nilTestEdges(scanErr)
-			for _, r := range returnsOf(lt) {
-				vals := returnValues(r)
-				if len(vals) != 3 || !isNilConst(vals[2]) {
-					continue
-				}
-				if isCellLoad(vals[0]) {
-					if !guardedByEdges(lt, r, isNil) {
-						okGuard = false
-					}
-				} else if !guardedByEdges(lt, r, noRows) {
-					okGuard = false
-				}
-			}
-		}
-		c.Check("R6.4", "latest/arms-selected-by-query-outcome", lt.Pos(), okGuard, "the scanned row is returned when the query succeeded; start/head arms only under pgx.ErrNoRows")
-	}
+	propC06Latest(c, m.latest, fStart)
 
 	c.Rule("R6.6", "the source client's cache serves only the segment fetched for exactly the requested (start, limit): a clipped batch cannot receive blocks beyond stop", 3)
 	checkCacheKeyIdentity(c, "R6.6")
@@ -510,4 +396,276 @@ func sameElem(a, b ssa.Value) bool {
 	sa, ia, ok1 := elemOf(a)
 	sb, ib, ok2 := elemOf(b)
 	return ok1 && ok2 && sameVar(sa, sb) && ia == ib
+}
+
+// propC06Latest (R6.4), on the inlined view of latest(): the position query
+// may live in a helper (recorded(pg)), the no-row arms in another (initial(ctx)),
+// the configured start may be handed out by a small method (origin()).
+func propC06Latest(c *Ctx, lt *ssa.Function, fStart *types.Var) {
+	w := c.W
+	lreg := NewRegion(lt)
+	var scanCells []ssa.Value
+	var scanErr *ssa.Call
+	for _, ci := range lreg.Calls() {
+		if ci.Common().IsInvoke() && ci.Common().Method.Name() == "Scan" {
+			if vs, ok := varargValues(ci.Common().Args[0]); ok {
+				scanCells = append(scanCells, vs...)
+			}
+			if call, ok := ci.(*ssa.Call); ok {
+				scanErr = call
+			}
+		}
+	}
+	cellOf := func(v ssa.Value) ssa.Value {
+		u, ok := v.(*ssa.UnOp)
+		if !ok || u.Op != token.MUL {
+			return nil
+		}
+		for _, sc := range scanCells {
+			if stripConv(sc) == u.X {
+				return u.X
+			}
+		}
+		return nil
+	}
+	// the values a result can be, each with the return statement it leaves its own function through
+	type leaf struct {
+		v  ssa.Value
+		at *ssa.Return
+	}
+	var expand func(v ssa.Value, at *ssa.Return, d int) []leaf
+	expand = func(v ssa.Value, at *ssa.Return, d int) []leaf {
+		v = stripConv(lreg.Resolve(stripConv(v)))
+		if d > 8 {
+			return []leaf{{v, at}}
+		}
+		switch x := v.(type) {
+		case *ssa.Phi:
+			var out []leaf
+			for _, e := range x.Edges {
+				out = append(out, expand(e, at, d+1)...)
+			}
+			return out
+		case *ssa.Extract:
+			call, _ := x.Tuple.(*ssa.Call)
+			if call == nil {
+				break
+			}
+			cal := regionCallee(call)
+			if cal == nil || lreg.site[cal] != ssa.CallInstruction(call) {
+				break
+			}
+			res := cal.Signature.Results()
+			boolIdx := -1
+			for j := 0; j < res.Len(); j++ {
+				if isBoolType(res.At(j).Type()) {
+					boolIdx = j
+				}
+			}
+			var out []leaf
+			var pf *pathFacts
+			for _, ret := range returnsOf(cal) {
+				vals := returnValues(ret)
+				if x.Index >= len(vals) {
+					continue
+				}
+				if last := vals[len(vals)-1]; len(vals) > 1 && isErrorType(last.Type()) {
+					if definitelyNonNilError(last, nil) {
+						continue
+					}
+					if pf == nil {
+						pf = newPathFacts(cal)
+					}
+					if st := pf.At(ret); st == nil || st.knownNonNil(last) {
+						continue
+					}
+				}
+				// `v, ok := helper()`: what is returned with ok == false is not used where ok was tested
+				if boolIdx >= 0 && at != nil {
+					if k, isC := vals[boolIdx].(*ssa.Const); isC && k.Value != nil && k.Value.String() == "false" {
+						if okV := extractOf(call, boolIdx); okV != nil {
+							t, _ := boolEdges(okV)
+							if len(t) > 0 && guardedByEdges(at.Parent(), at, t) {
+								continue
+							}
+						}
+					}
+				}
+				out = append(out, expand(vals[x.Index], ret, d+1)...)
+			}
+			return out
+		}
+		return []leaf{{v, at}}
+	}
+	aff := &affEnv{reg: lreg}
+	nret := 0
+	kinds := map[string]bool{}
+	var rowAts, otherAts []*ssa.Return
+	for _, sr := range lreg.SuccessReturns() {
+		if len(sr.Vals) != 3 {
+			continue
+		}
+		nret++
+		nums, hashes := expand(sr.Vals[0], sr.Ret, 0), expand(sr.Vals[1], sr.Ret, 0)
+		ok, detail := len(nums) > 0 && len(hashes) > 0, ""
+		for _, nl := range nums {
+			if !ok {
+				break
+			}
+			// the hashes that belong to this position: those that leave through the same return
+			// statement when both come out of the same function, any of this return otherwise
+			var hs []leaf
+			for _, hl := range hashes {
+				if hl.at == nl.at || hl.at == nil || nl.at == nil || hl.at.Parent() != nl.at.Parent() {
+					hs = append(hs, hl)
+				}
+			}
+			if len(hs) == 0 {
+				ok, detail = false, "a position is returned without a hash that belongs to it"
+				break
+			}
+			if cn := cellOf(nl.v); cn != nil {
+				for _, hl := range hs {
+					if ch := cellOf(hl.v); ch == nil || ch == cn {
+						ok, detail = false, "the scanned position is returned with something else than the scanned hash"
+					}
+				}
+				if ok {
+					detail = "returns the scanned (num, hash)"
+					kinds["row"] = true
+					rowAts = append(rowAts, nl.at, sr.Ret)
+				}
+				continue
+			}
+			otherAts = append(otherAts, nl.at, sr.Ret)
+			// hash must be Source.Hash(ctx, url, N) with N the returned number
+			for _, hl := range hs {
+				call, idx := resultOf(hl.v)
+				if call == nil || idx != 0 || !call.Call.IsInvoke() || call.Call.Method.Name() != "Hash" || !repoNamedIs(call.Call.Value.Type(), "shovel", "Source") {
+					ok, detail = false, "success return whose hash is neither scanned nor fetched for the returned number"
+					continue
+				}
+				nArg := stripConv(lreg.Resolve(stripConv(call.Call.Args[len(call.Call.Args)-1])))
+				same := nArg == nl.v || sym(nArg) == sym(nl.v) || linEq(aff.Of(nArg), aff.Of(nl.v))
+				if !same {
+					// the number handed out by a helper (n, ok := t.origin()): the same value on both sides
+					for _, al := range expand(nArg, sr.Ret, 0) {
+						if al.v == nl.v {
+							same = true
+						}
+					}
+				}
+				if !same {
+					ok, detail = false, "the hash is fetched for a different number than the one returned"
+				}
+			}
+			if !ok {
+				continue
+			}
+			if _, isConst := nl.v.(*ssa.Const); isConst {
+				ok, detail = false, "a constant position is returned"
+				continue
+			}
+			b, isB := nl.v.(*ssa.BinOp)
+			if !isB || b.Op != token.SUB {
+				ok, detail = false, "position is not of the form N-1"
+				continue
+			}
+			if n, okc := constInt(b.Y); !okc || n != 1 {
+				ok, detail = false, "position is not N-1"
+				continue
+			}
+			detail = "returns (N, Source.Hash(N)) with N = " + shortSym(nl.v)
+			g := b.Parent()
+			// edges (of the function of the subtraction) on which the configured start is known non-zero
+			startPos, _ := cmpEdges(g, func(bb *ssa.BinOp) bool {
+				n, ok := constInt(bb.Y)
+				return (bb.Op == token.GTR || bb.Op == token.NEQ) && isStopLoad(bb.X, fStart) && ok && n == 0
+			})
+			_, ne := cmpEdges(g, func(bb *ssa.BinOp) bool {
+				n, ok := constInt(bb.Y)
+				return bb.Op == token.EQL && isStopLoad(bb.X, fStart) && ok && n == 0
+			})
+			startPos = append(startPos, ne...)
+			for _, lf := range phiLeaves(b.X) {
+				switch {
+				case isStopLoad(lf.Val, fStart):
+					kinds["start"] = true
+					guarded := guardedByEdges(g, b, startPos)
+					if lf.Phi != nil && lf.Pred != nil {
+						guarded = guarded || edgeGuarded(g, lf.Pred, lf.Phi.Block(), startPos)
+						// `first := t.start; if first == 0 {…}`: the test is on the copy
+						if !guarded {
+							_, nz := cmpEdges(g, func(bb *ssa.BinOp) bool {
+								n, ok := constInt(bb.Y)
+								return bb.Op == token.EQL && bb.X == lf.Val && ok && n == 0
+							})
+							nzT, _ := cmpEdges(g, func(bb *ssa.BinOp) bool {
+								n, ok := constInt(bb.Y)
+								return (bb.Op == token.GTR || bb.Op == token.NEQ) && bb.X == lf.Val && ok && n == 0
+							})
+							guarded = edgeGuarded(g, lf.Pred, lf.Phi.Block(), append(nz, nzT...))
+						}
+					}
+					if !guarded {
+						ok, detail = false, "start-1 is used without the start > 0 test"
+					}
+				default:
+					if cl, k := resultOf(lf.Val); cl != nil && k == 0 && cl.Call.IsInvoke() && cl.Call.Method.Name() == "Latest" {
+						kinds["head"] = true
+					} else {
+						ok, detail = false, "position is neither start-1 nor head-1"
+					}
+				}
+			}
+		}
+		c.Check("R6.4", fmt.Sprintf("latest/return#%d", nret), instrPos(sr.Ret), ok, detail)
+	}
+	for _, k := range []string{"row", "start", "head"} {
+		if !kinds[k] {
+			c.Violation("R6.4", "latest/arm-"+k, lt.Pos(), "latest() has no arm resuming from "+map[string]string{"row": "the recorded position", "start": "the configured start", "head": "the source's head"}[k])
+		}
+	}
+	// the row is returned when the query found one; the start/head arms only under pgx.ErrNoRows:
+	// two scenarios, with the helpers' boolean results lifted to their call sites
+	okGuard := scanErr != nil && len(lt.Blocks) > 0
+	if okGuard {
+		var noRows []Edge
+		for _, ref := range *scanErr.Referrers() {
+			if call, ok := ref.(*ssa.Call); ok && calleeName(call) == "errors.Is" {
+				if u, ok := call.Call.Args[1].(*ssa.UnOp); ok {
+					if g, ok := u.X.(*ssa.Global); ok && g.Name() == "ErrNoRows" {
+						t, _ := boolEdges(call)
+						noRows = append(noRows, t...)
+					}
+				}
+			}
+		}
+		isNil, _ := nilTestEdges(scanErr)
+		reachable := func(at *ssa.Return, cuts *Cuts) bool {
+			return at != nil && lreg.ReachFromEntry(at, cuts)
+		}
+		// the query did not succeed: the scanned row must not be returned
+		c1 := liftBoolHelpers(lreg, newCuts().addEdges(isNil), nil)
+		for _, at := range rowAts {
+			if len(isNil) == 0 || reachable(at, c1) {
+				okGuard = false
+				if os.Getenv("SHOVELCHECK_DEBUG") != "" {
+					fmt.Fprintf(os.Stderr, "R6.4: row return %s reachable although the query failed (isNil edges %d)\n", w.Pos(instrPos(at)), len(isNil))
+				}
+			}
+		}
+		// the query did not report "no rows": no start/head arm
+		c2 := liftBoolHelpers(lreg, newCuts().addEdges(noRows), nil)
+		for _, at := range otherAts {
+			if len(noRows) == 0 || reachable(at, c2) {
+				okGuard = false
+				if os.Getenv("SHOVELCHECK_DEBUG") != "" {
+					fmt.Fprintf(os.Stderr, "R6.4: start/head return %s reachable without ErrNoRows (edges %d)\n", w.Pos(instrPos(at)), len(noRows))
+				}
+			}
+		}
+	}
+	_ = w
+	c.Check("R6.4", "latest/arms-selected-by-query-outcome", lt.Pos(), okGuard, "the scanned row is returned when the query succeeded; start/head arms only under pgx.ErrNoRows")
 }
